@@ -9,7 +9,7 @@ from .types import atom_facts
 
 Z3_TIMEOUT_MS = int(os.environ.get('PYVC_Z3_MS', '10000'))
 CVC5_TIMEOUT_S = int(os.environ.get('PYVC_CVC5_S', '20'))
-MAX_INST = 4000
+MAX_INST = int(os.environ.get('PYVC_MAX_INST', '20000'))
 
 
 def ground_terms(fs, bound_ids=()):
@@ -34,8 +34,17 @@ def ground_terms(fs, bound_ids=()):
                 ok = True
             elif k in (z3.Z3_OP_DT_ACCESSOR, z3.Z3_OP_SELECT, z3.Z3_OP_SEQ_NTH):
                 ok = True
+            elif k == z3.Z3_OP_DT_CONSTRUCTOR and t.num_args() > 0 and t.sort().name().startswith('Rec_Tup'):
+                ok = True       # pairs built by the problem itself (items of a map)
             if ok and not _mentions(t, bound_ids):
                 by_sort.setdefault(t.sort().name(), {})[i] = t
+                srt = t.sort()
+                if srt.name().startswith('Opt_') and k != z3.Z3_OP_DT_ACCESSOR:
+                    try:
+                        w = srt.accessor(1, 0)(t)      # the payload of an optional entry is a natural instantiation candidate
+                        by_sort.setdefault(w.sort().name(), {})[w.get_id()] = w
+                    except Exception:
+                        pass
     return by_sort
 
 
@@ -114,7 +123,8 @@ def instantiate(hyps, qhyps, goal, rounds=2, max_depth=2):
                         new.append(z3.substitute(q.body, *zip(q.vars, combo)))
                 continue
             for v in q.vars:
-                pool = [t for t in gt.get(v.sort().name(), {}).values() if _depth(t) <= max_depth]
+                pool = [t for t in gt.get(v.sort().name(), {}).values()
+                        if _depth(t) <= (max_depth + 1 if t.decl().kind() == z3.Z3_OP_DT_CONSTRUCTOR else max_depth)]
                 pools.append(pool)
             n = 1
             for p in pools:
@@ -271,20 +281,37 @@ def prepare(formulas):
     return ground, quants
 
 
+def _invalid_model(model, fs):
+    for f in fs:
+        try:
+            v = model.eval(f, model_completion=True)
+        except Exception:
+            continue
+        if z3.is_false(v):
+            return f
+    return None
+
+
 def discharge(vc, use_cvc5=True):
     """1. skolemise; universally quantified parts become instantiation schemes
        2. decide the quantifier-free part plus the ground instances (z3, then cvc5 for an `unknown`)
        3. unsat -> discharged.  sat -> before reporting, ask z3 once about the quantified problem itself."""
     t0 = time.time()
     base = list(vc.hyps) + [z3.Not(vc.goal)]
+    plain = []
+    for q in vc.qhyps:
+        if _has_quant(q.body):
+            base.append(z3.ForAll(q.vars, q.body))      # nested quantifiers: skolemise/prenex like any other formula
+        else:
+            plain.append(q)
     ground, quants = prepare(base)
-    qh = list(vc.qhyps) + quants
+    qh = plain + quants
     inst = instantiate(ground, qh, z3.BoolVal(True))
     qbodies = any(_has_quant(q.body) for q in qh)
     qf = [f for f in ground if not _has_quant(f)] + ([f for f in inst if not _has_quant(f)] if qbodies else inst) + atom_facts()
     leftover = [f for f in ground if _has_quant(f)]
     s = z3.Solver()
-    s.set('timeout', Z3_TIMEOUT_MS)
+    s.set('timeout', getattr(vc, 'z3_ms', None) or Z3_TIMEOUT_MS)
     s.add(*qf)
     r = s.check()
     backend = 'z3'
@@ -301,6 +328,19 @@ def discharge(vc, use_cvc5=True):
                 r, backend = z3.sat, 'cvc5'
     elif r == z3.sat:
         model = s.model()
+        bad = _invalid_model(model, qf)
+        if bad is not None:
+            # z3's string/sequence solver occasionally answers sat with an assignment that falsifies an assertion:
+            # such an answer is not a counter-model; hand the query to cvc5
+            detail = 'z3 model rejected by validation (%s)' % str(bad)[:80]
+            r, model = z3.unknown, None
+            if use_cvc5:
+                st, d2 = run_cvc5(s.to_smt2())
+                detail += ' | cvc5: ' + d2
+                if st == 'unsat':
+                    return Result(vc, 'unsat', 'cvc5', time.time() - t0, None, detail)
+                if st == 'sat':
+                    r, backend = z3.sat, 'cvc5'
     if r == z3.unsat:
         return Result(vc, 'unsat', 'z3', time.time() - t0)
     if vc.expect == 'sat':
@@ -321,12 +361,29 @@ def discharge(vc, use_cvc5=True):
     return Result(vc, 'unknown', 'z3+cvc5', time.time() - t0, None, detail)
 
 
+_dumpn = [0]
+
+
+def fix_smt2_for_cvc5(smt2):
+    """z3's printer -> SMT-LIB as cvc5 1.0 reads it"""
+    import re
+    out = smt2
+    out = re.sub(r'\(declare-fun ([^ ]+) \(\) ', r'(declare-const \1 ', out)
+    out = out.replace('(_ is none )', '(_ is none)').replace('(_ is some )', '(_ is some)')
+    return out
+
+
 def run_cvc5(smt2, timeout=None):
     timeout = timeout or CVC5_TIMEOUT_S
     fd, path = tempfile.mkstemp(suffix='.smt2')
     try:
+        smt2 = fix_smt2_for_cvc5(smt2)
         with os.fdopen(fd, 'wt') as f:
             f.write('(set-logic ALL)\n' + smt2)
+        if os.environ.get('PYVC_DUMP'):
+            _dumpn[0] += 1
+            with open(os.environ['PYVC_DUMP'] + '.%d' % _dumpn[0], 'wt') as f:
+                f.write('(set-logic ALL)\n' + smt2)
         try:
             p = subprocess.run(['/usr/bin/cvc5', '--strings-exp', '--tlimit=%d' % (timeout * 1000), path],
                                capture_output=True, text=True, timeout=timeout + 5)
